@@ -16,6 +16,7 @@ SEMANTIC_OPS = {
     'cfg_remove_epsilon_rules', 'cfg_eliminate_unit_rules', 'cfg_make_rules_of_length_two', 'cfg_eliminate_terminals',
     'cfg_remove_useless_rules', 'cfg_apply_chomsky', 'regexp_accepts_word', 'regexp_words_up_to_n', 'regexp_simplify', 'regexp_to_nfa',
     'reparse_dfa', 'reparse_nfa', 'reparse_pda', 'reparse_cfg', 'language_helpers', 'generate_language_words', 'language_reverse_words', 'concatenation_words', 'parse_printed_nfa', 'parse_printed_pda',
+    'words_up_to_n_sigma', 'compare_languages_words', 'language_set_operations',
 }
 # witness-returning operations are never compared (C15 allows any valid witness).  The regexp printers are NOT semantic:
 # the concrete syntax is ambiguous for alphabets containing 0, 1 or multi-character symbols, so the re-parsed language is
